@@ -41,6 +41,9 @@ const FAMS: &[Fam] = &[
     Fam { key: "Q{x:1,y:0102}", ty: "Q[x: 'int, y: 'bin]", exprs: &["Q[x: 1, y: 0x0102]", "Q[x: 1, y: [0x01, 0x02] __binary_concat__]", "Q[x: 1 wd, y: 0x0102]"], tuple: true, module_field: None },
     Fam { key: "{x:1,y:0102}", ty: "[x: 'int, y: 'bin]", exprs: &["[x: 1, y: 0x0102]", "[x: [0, 1] __integer_add__, y: [0x01, 0x02] __binary_concat__]", "[x: 1 wd, y: 0x0102]", "P[x: 1, y: 0x0102] [...]", "[x: 1, y: 0x0102] idg"], tuple: true, module_field: Some("u") },
     Fam { key: "{a:1,b:0102}", ty: "[a: 'int, b: 'bin]", exprs: &["[a: 1, b: 0x0102]", "[a: 1, b: [0x01, 0x02] __binary_concat__]"], tuple: true, module_field: None },
+    // one name, one arity, the same label at different positions among unlabelled fields
+    Fam { key: "{a:1,_:1}", ty: "[a: 'int, 'int]", exprs: &["[a: 1, 1]", "[a: [0, 1] __integer_add__, 1]", "[a: 1, 1] idg"], tuple: true, module_field: None },
+    Fam { key: "{_:1,a:1}", ty: "['int, a: 'int]", exprs: &["[1, a: 1]", "[1, a: [0, 1] __integer_add__]", "[1, a: 1] idg"], tuple: true, module_field: None },
     Fam { key: "[1,0102]", ty: "['int, 'bin]", exprs: &["[1, 0x0102]", "[[0, 1] __integer_add__, [0x01, 0x02] __binary_concat__]", "[1 wd, 0x0102]", "[[1, 0x0102], 3] fst"], tuple: true, module_field: None },
     Fam { key: "[P,5]", ty: "[P[x: 'int, y: 'bin], 'int]", exprs: &["[P[x: 1, y: 0x0102], 5]", "[P[x: [0, 1] __integer_add__, y: [0x01, 0x02] __binary_concat__], [2, 3] __integer_add__]", "[P[x: 1 wd, y: 0x0102], 5 wd]"], tuple: true, module_field: None },
     Fam { key: "Ok", ty: "Ok", exprs: &["Ok", "Ok"], tuple: true, module_field: None },
@@ -147,7 +150,8 @@ impl Property for C13 {
         for k in 0..npairs {
             let fa = rng.usize(FAMS.len());
             // bias towards equal families and near misses
-            let fb = if rng.chance(1, 2) { fa } else { rng.usize(FAMS.len()) };
+            // (related families are neighbours in the table)
+            let fb = if rng.chance(1, 2) { fa } else if rng.chance(1, 3) { if fa + 1 < FAMS.len() && rng.chance(1, 2) { fa + 1 } else { fa.saturating_sub(1) } } else { rng.usize(FAMS.len()) };
             let (a, b) = (&FAMS[fa], &FAMS[fb]);
             let ea = *rng.pick(a.exprs);
             let mut eb = *rng.pick(b.exprs);
